@@ -710,26 +710,16 @@ func ReadElement(r io.Reader, element interface{}) error {
 		}
 
 	case *ShortChannelID:
-		var blockHeight [4]byte
-		if _, err = io.ReadFull(r, blockHeight[1:]); err != nil {
+		// The 8 bytes are read in one go: a short channel ID that is
+		// cut off between two of its fields then fails with
+		// io.ErrUnexpectedEOF, and a bare io.EOF only ever means that
+		// no byte of it was left to read.
+		var scid [8]byte
+		if _, err = io.ReadFull(r, scid[:]); err != nil {
 			return err
 		}
 
-		var txIndex [4]byte
-		if _, err = io.ReadFull(r, txIndex[1:]); err != nil {
-			return err
-		}
-
-		var txPosition [2]byte
-		if _, err = io.ReadFull(r, txPosition[:]); err != nil {
-			return err
-		}
-
-		*e = ShortChannelID{
-			BlockHeight: binary.BigEndian.Uint32(blockHeight[:]),
-			TxIndex:     binary.BigEndian.Uint32(txIndex[:]),
-			TxPosition:  binary.BigEndian.Uint16(txPosition[:]),
-		}
+		*e = NewShortChanIDFromInt(binary.BigEndian.Uint64(scid[:]))
 
 	case *[]net.Addr:
 		// First, we'll read the number of total bytes that have been
